@@ -122,7 +122,7 @@ PostZ(f, A, O, r, x) ==
                     m == IF bl >= 53 THEN ZShr(a, bl - 53) ELSE ZShl(a, 53 - bl)
                 IN  /\ DIsFinite(r) /\ DMant(r) = m /\ DExp(r) = -53 /\ r[1] = (IF ZIsNeg(A[1]) THEN 1 ELSE 0)
                     /\ x = ZFromInt(bl)
-     [] f = "mpz_get_str" -> r.s = GetStrText(A[2], A[1])
+     [] f \in {"mpz_get_str", "mpz_get_str_buf"} -> r.s = GetStrText(A[2], A[1])      \* _buf: into a caller buffer of exactly sizeinbase + 2 bytes
      [] f = "mpz_sizeinbase" -> SizeInBaseOK(A[1], A[2], I(r))
      [] f = "mpz_size" -> r = ZFromInt(ZLimbCount(A[1]))
      [] f \in {"mpz_fits_ulong_p", "mpz_fits_ui_p"} -> Bool(r, InRange(A[1], "0", UMAX))
